@@ -77,6 +77,10 @@ Qed.
 Lemma acc_exact_01 labels preds : length labels = length preds -> 0 <= acc_exact labels preds <= 1.
 Proof. intros H. unfold acc_exact. pose proof (acc_x_01 labels preds H). lra. Qed.
 
+Lemma acc_exact_ranges labels preds : length labels = length preds ->
+  0 <= acc_x labels preds <= 1 /\ 0 <= acc_exact labels preds <= 1.
+Proof. intros H. split; [now apply acc_x_01 | now apply acc_exact_01]. Qed.
+
 Lemma rsum_sum l : KA.rsum l = sum l.
 Proof. induction l as [|a l IH]; [reflexivity|]. cbn [KA.rsum]. rewrite IH. reflexivity. Qed.
 
@@ -208,9 +212,8 @@ Section Std.
     - destruct (Hb L) as [_ [_ Hw]]. apply (within_weaken u U0 U1 (2 + Nat.pred K)); [lia | exact Hw].
   Qed.
 
-  (* the computed error rate Q' = rnd (np.sum(errors) / (2K)) *)
-  Definition acc_q (labels preds : list nat) : R :=
-    rnd (np_sum O (acc_rows_rnd rnd labels preds) / INR (2 * n_class labels)).
+  (* the computed error rate [acc_q] = rnd (np.sum(errors) / (2K)) *)
+  Local Notation acc_q := (acc_q rnd).
 
   Lemma accuracy_F_q labels preds : accuracy_F O labels preds = rnd (1 - acc_q labels preds).
   Proof. apply accuracy_F_RndOps. Qed.
@@ -267,6 +270,24 @@ Section Std.
     assert ((P - 1) * x + u * (1 - x) <= P - 1) by nra. lra.
   Qed.
 
+  Theorem accuracy_error_rate labels preds : length labels = length preds ->
+    accuracy_F O labels preds = rnd (1 - acc_q labels preds) /\
+    W (n_class labels + 3) (acc_x labels preds) (acc_q labels preds).
+  Proof. intros H. split; [apply accuracy_F_q | now apply acc_q_within]. Qed.
+
+  (* (a) *)
+  Theorem accuracy_terms labels preds c : length labels = length preds ->
+    (exists d, Rabs d <= u /\ rnd (acc_fp labels preds c) = acc_fp labels preds c * (1 + d)) /\
+    (exists d, Rabs d <= u /\ rnd (acc_fn labels preds c) = acc_fn labels preds c * (1 + d)) /\
+    (1 - u) * acc_fp labels preds c <= rnd (acc_fp labels preds c) <= (1 + u) * acc_fp labels preds c /\
+    (1 - u) * acc_fn labels preds c <= rnd (acc_fn labels preds c) <= (1 + u) * acc_fn labels preds c /\
+    0 <= acc_fp labels preds c <= 1 /\ 0 <= acc_fn labels preds c <= 1.
+  Proof.
+    intros H. pose proof (acc_fp_01 labels preds c H) as A. pose proof (acc_fn_01 labels preds c H) as B.
+    split; [apply term_rel|]. split; [apply term_rel|].
+    split; [apply term_two_sided; lra|]. split; [apply term_two_sided; lra|]. split; assumption.
+  Qed.
+
   (* (e) the range *)
   Theorem accuracy_range labels preds : length labels = length preds ->
     - ((1 + u) ^ (n_class labels + 4) - 1) <= accuracy_F O labels preds <= 1 + u.
@@ -294,6 +315,10 @@ Section Std.
     rewrite accuracy_F_q. destruct (acc_q_within labels labels eq_refl) as [rho [E _]].
     rewrite acc_x_all_correct in E. rewrite E. f_equal. ring.
   Qed.
+
+  Corollary accuracy_all_correct_both labels :
+    accuracy_F O labels labels = rnd 1 /\ (rnd 1 = 1 -> accuracy_F O labels labels = 1).
+  Proof. split; [apply accuracy_all_correct | intros R1; now rewrite accuracy_all_correct]. Qed.
 
   (* (d) some prediction wrong *)
   Lemma bounded_search (P : nat -> Prop) (dec : forall c, {P c} + {~ P c}) K :
@@ -374,3 +399,198 @@ Section Std.
     destruct (Rle_dec 0 (1 - q)) as [P|N]; nra.
   Qed.
 End Std.
+
+(* ------------------------------------------------------------------ *)
+(* witnesses: a non-identity rounding of the standard model            *)
+(* ------------------------------------------------------------------ *)
+From OPF Require Import Proofs.RdepthWitness.
+
+Definition ex_labels := [0; 0; 1; 1]%nat.
+Definition ex_preds := [0; 1; 1; 1]%nat.
+
+Lemma ex_domain : Measures.c20_domain ex_labels ex_preds.
+Proof.
+  unfold Measures.c20_domain. split; [reflexivity|]. split; [cbn [length ex_labels]; lia|]. split.
+  - intros c Hc. change (n_class ex_labels) with 2%nat in Hc.
+    destruct c as [|[|c]]; [cbn; tauto | cbn; tauto | lia].
+  - intros p Hp. change (n_class ex_labels) with 2%nat. cbn in Hp. lia.
+Qed.
+
+Lemma ex_counts :
+  n_class ex_labels = 2%nat /\ length ex_labels = 4%nat /\ count 0 ex_labels = 2%nat /\ count 1 ex_labels = 2%nat /\
+  FP 0 ex_labels ex_preds = 0%nat /\ FN 0 ex_labels ex_preds = 1%nat /\
+  FP 1 ex_labels ex_preds = 1%nat /\ FN 1 ex_labels ex_preds = 0%nat.
+Proof. repeat split; reflexivity. Qed.
+
+Lemma ex_exact : acc_exact ex_labels ex_preds = 3 / 4.
+Proof.
+  unfold acc_exact, acc_x, acc_E, acc_rows, acc_fp, acc_fn.
+  destruct ex_counts as [E1 [E2 [E3 [E4 [E5 [E6 [E7 E8]]]]]]].
+  rewrite E1. cbn [seq map]. rewrite E2, E3, E4, E5, E6, E7, E8. cbn [Nat.sub Nat.mul Nat.add]. unfold sum. cbn [fold_right INR]. field.
+Qed.
+
+Lemma ex_up u : 
+  accuracy_F (RndOps (rnd_up u)) ex_labels ex_preds
+  = (1 - ((1 + u) ^ 3 / 2 + (1 + u) ^ 2 / 2) * (1 + u) / 4 * (1 + u)) * (1 + u).
+Proof.
+  rewrite accuracy_F_rnd_small by (change (n_class ex_labels) with 2%nat; lia).
+  unfold accuracy_rnd, acc_rows_rnd, acc_row_rnd, acc_fp, acc_fn.
+  destruct ex_counts as [E1 [E2 [E3 [E4 [E5 [E6 [E7 E8]]]]]]].
+  rewrite E1. cbn [seq map]. rewrite E2, E3, E4, E5, E6, E7, E8. cbn [fold_left Nat.sub Nat.mul Nat.add INR]. unfold rnd_up. field.
+Qed.
+
+Lemma ex_up_lt u : 0 < u < 1 -> accuracy_F (RndOps (rnd_up u)) ex_labels ex_preds < acc_exact ex_labels ex_preds.
+Proof.
+  intros [U0 U1]. rewrite ex_up, ex_exact. set (s := 1 + u).
+  assert (S1 : 1 < s) by (unfold s; lra).
+  assert (S2 : 1 + 2 * u <= s ^ 2) by (unfold s; nra).
+  assert (S4 : 1 + 4 * u <= s ^ 4) by (replace (s ^ 4) with (s ^ 2 * s ^ 2) by ring; nra).
+  assert (Q : (1 + 4 * u) / 4 <= (s ^ 3 / 2 + s ^ 2 / 2) * s / 4 * s).
+  { replace ((s ^ 3 / 2 + s ^ 2 / 2) * s / 4 * s) with (s ^ 4 * ((s + 1) / 2) / 4) by field.
+    assert (1 <= (s + 1) / 2) by lra. assert (0 < s ^ 4) by lra. nra. }
+  unfold s in *. nra.
+Qed.
+
+(* all predictions wrong, two classes: the computed error rate exceeds 1 and the computed accuracy is NEGATIVE *)
+Definition neg_labels := [0; 1]%nat.
+Definition neg_preds := [1; 0]%nat.
+
+Lemma neg_domain : Measures.c20_domain neg_labels neg_preds.
+Proof.
+  unfold Measures.c20_domain. split; [reflexivity|]. split; [cbn [length neg_labels]; lia|]. split.
+  - intros c Hc. change (n_class neg_labels) with 2%nat in Hc.
+    destruct c as [|[|c]]; [cbn; tauto | cbn; tauto | lia].
+  - intros p Hp. change (n_class neg_labels) with 2%nat. cbn in Hp. lia.
+Qed.
+
+Lemma neg_counts :
+  n_class neg_labels = 2%nat /\ length neg_labels = 2%nat /\ count 0 neg_labels = 1%nat /\ count 1 neg_labels = 1%nat /\
+  FP 0 neg_labels neg_preds = 1%nat /\ FN 0 neg_labels neg_preds = 1%nat /\
+  FP 1 neg_labels neg_preds = 1%nat /\ FN 1 neg_labels neg_preds = 1%nat.
+Proof. repeat split; reflexivity. Qed.
+
+Lemma neg_exact : acc_exact neg_labels neg_preds = 0.
+Proof.
+  unfold acc_exact, acc_x, acc_E, acc_rows, acc_fp, acc_fn.
+  destruct neg_counts as [E1 [E2 [E3 [E4 [E5 [E6 [E7 E8]]]]]]].
+  rewrite E1. cbn [seq map]. rewrite E2, E3, E4, E5, E6, E7, E8. cbn [Nat.sub Nat.mul Nat.add]. unfold sum. cbn [fold_right INR]. field.
+Qed.
+
+Lemma neg_up u :
+  accuracy_F (RndOps (rnd_up u)) neg_labels neg_preds
+  = (1 - (1 + u) ^ 4 * ((1 + u) + 1) / 2) * (1 + u).
+Proof.
+  rewrite accuracy_F_rnd_small by (change (n_class neg_labels) with 2%nat; lia).
+  unfold accuracy_rnd, acc_rows_rnd, acc_row_rnd, acc_fp, acc_fn.
+  destruct neg_counts as [E1 [E2 [E3 [E4 [E5 [E6 [E7 E8]]]]]]].
+  rewrite E1. cbn [seq map]. rewrite E2, E3, E4, E5, E6, E7, E8. cbn [fold_left Nat.sub Nat.mul Nat.add INR]. unfold rnd_up. field.
+Qed.
+
+Theorem accuracy_nonneg_refuted u : 0 < u < 1 ->
+  exists rnd labels preds, rnd_rel u rnd /\ Measures.c20_domain labels preds /\
+    acc_exact labels preds = 0 /\ accuracy_F (RndOps rnd) labels preds < 0.
+Proof.
+  intros [U0 U1]. exists (rnd_up u), neg_labels, neg_preds.
+  split; [apply rnd_up_rel; lra|]. split; [exact neg_domain|]. split; [exact neg_exact|].
+  rewrite neg_up. set (s := 1 + u). assert (S1 : 1 < s) by (unfold s; lra).
+  assert (S2 : 1 < s * s) by nra.
+  assert (S4 : 1 < s ^ 4). { replace (s ^ 4) with (s * s * (s * s)) by ring. nra. }
+  assert (Q : 1 < s ^ 4 * (s + 1) / 2).
+  { assert (1 < (s + 1) / 2) by lra.
+    replace (s ^ 4 * (s + 1) / 2) with (s ^ 4 * ((s + 1) / 2)) by field.
+    generalize dependent (s ^ 4). intros a Ha. nra. }
+  generalize dependent (s ^ 4 * (s + 1) / 2). intros q Hq. nra.
+Qed.
+
+(* ------------------------------------------------------------------ *)
+(* the order model: a monotone rounding that fixes the integers 0..2K  *)
+(* ------------------------------------------------------------------ *)
+Section Mono.
+  Variable rnd : R -> R.
+  Variables (labels preds : list nat).
+  Hypothesis LEN : length labels = length preds.
+  Hypothesis MONO : forall a b, a <= b -> rnd a <= rnd b.
+  Hypothesis INTS : forall m, (m <= 2 * n_class labels)%nat -> rnd (INR m) = INR m.
+  Local Notation O := (RndOps rnd).
+  Local Notation K := (n_class labels).
+
+  Lemma mono_between lo hi t : (lo <= 2 * K)%nat -> (hi <= 2 * K)%nat -> INR lo <= t <= INR hi -> INR lo <= rnd t <= INR hi.
+  Proof. intros Hl Hh [A B]. rewrite <- (INTS lo Hl), <- (INTS hi Hh). split; now apply MONO. Qed.
+
+  Lemma mono_row c : 0 <= acc_row_rnd rnd labels preds c <= 2.
+  Proof.
+    pose proof (n_class_pos labels) as PK. unfold acc_row_rnd.
+    pose proof (mono_between 0 1 _ ltac:(lia) ltac:(lia) (acc_fp_01 labels preds c LEN)) as A.
+    pose proof (mono_between 0 1 _ ltac:(lia) ltac:(lia) (acc_fn_01 labels preds c LEN)) as B.
+    cbn [INR] in A, B.
+    apply (mono_between 0 2); [lia | lia |]. cbn [INR]. lra.
+  Qed.
+
+  Definition MRel (m : nat) (_ v : R) : Prop := (m <= K)%nat -> 0 <= v <= INR (2 * m).
+
+  Lemma MRel_zero : MRel 0 (fzero O) (fzero O).
+  Proof. intros _. change (2 * 0)%nat with 0%nat. cbn [INR]. change (fzero O) with 0. lra. Qed.
+
+  Lemma MRel_add a b x1 x2 y1 y2 : MRel a x1 x2 -> MRel b y1 y2 -> MRel (a + b) (nadd O x1 y1) (nadd O x2 y2).
+  Proof.
+    intros A B Hab. specialize (A ltac:(lia)). specialize (B ltac:(lia)). cbn [nadd RndOps].
+    apply (mono_between 0 (2 * (a + b))); [lia | lia |]. rewrite mult_INR in A, B. rewrite mult_INR, plus_INR.
+    change (INR 2) with 2 in *. change (INR 0) with 0. pose proof (pos_INR a). pose proof (pos_INR b). lra.
+  Qed.
+
+  Lemma mono_sum : 0 <= np_sum O (acc_rows_rnd rnd labels preds) <= INR (2 * K).
+  Proof.
+    assert (F : Forall2 (MRel 1) (acc_rows_rnd rnd labels preds) (acc_rows_rnd rnd labels preds)).
+    { unfold acc_rows_rnd. apply Forall2_map_same. intros c _ _. change (2 * 1)%nat with 2%nat. cbn [INR]. pose proof (mono_row c). lra. }
+    pose proof (np_sum_rel O O MRel 0 MRel_zero MRel_add _ _ F) as [Hs Hb].
+    assert (EL : length (acc_rows_rnd rnd labels preds) = K) by (unfold acc_rows_rnd; now rewrite map_length, seq_length).
+    rewrite EL in Hs, Hb. destruct (Nat.lt_ge_cases K 8) as [L|L]; [apply (Hs L) | apply (Hb L)]; lia.
+  Qed.
+
+  Theorem accuracy_range_mono : 0 <= accuracy_F O labels preds <= 1.
+  Proof.
+    rewrite accuracy_F_RndOps. pose proof mono_sum as [S0 S1]. pose proof (INR_2K_pos labels) as P.
+    pose proof (n_class_pos labels) as PK.
+    set (S := np_sum O (acc_rows_rnd rnd labels preds)) in *.
+    assert (Q : 0 <= S / INR (2 * K) <= 1).
+    { split.
+      - apply Rmult_le_pos; [exact S0 | left; now apply Rinv_0_lt_compat].
+      - apply (Rmult_le_reg_r (INR (2 * K))); [exact P|]. unfold Rdiv. rewrite Rmult_assoc, Rinv_l by lra. lra. }
+    pose proof (mono_between 0 1 _ ltac:(lia) ltac:(lia) Q) as Q'. cbn [INR] in Q'.
+    apply (mono_between 0 1); [lia | lia |]. cbn [INR]. lra.
+  Qed.
+End Mono.
+
+(* (c) + (d): the computed accuracy is 1 exactly when every prediction is correct *)
+Theorem accuracy_one_iff_std u rnd : 0 <= u < 1 -> rnd_rel u rnd -> rnd 1 = 1 ->
+  forall labels preds, length labels = length preds ->
+  INR (2 * n_class labels * length labels + n_class labels + 3) * u < 1 ->
+  (accuracy_F (RndOps rnd) labels preds = 1 <-> preds = labels).
+Proof.
+  intros U REL R1 labels preds H Hs. split.
+  - intros E. destruct (list_eq_dec Nat.eq_dec preds labels) as [Y|N]; [exact Y|].
+    pose proof (accuracy_wrong_lt_one u rnd U REL labels preds H N Hs). lra.
+  - intros ->. rewrite (accuracy_all_correct u rnd U REL). exact R1.
+Qed.
+
+(* non-vacuity of the whole layer at u = 2^-53 with the non-identity rounding rnd_up *)
+Theorem accuracy_rounding_nonvacuous :
+  0 <= u64 < 1 /\ rnd_rel u64 (rnd_up u64) /\ rnd_up u64 1 <> 1 /\
+  Measures.c20_domain ex_labels ex_preds /\ n_class ex_labels = 2%nat /\ ex_preds <> ex_labels /\
+  INR (2 * n_class ex_labels * length ex_labels + n_class ex_labels + 3) * u64 < 1 /\
+  acc_exact ex_labels ex_preds = 3 / 4 /\
+  accuracy_F (RndOps (rnd_up u64)) ex_labels ex_preds
+    = (1 - ((1 + u64) ^ 3 / 2 + (1 + u64) ^ 2 / 2) * (1 + u64) / 4 * (1 + u64)) * (1 + u64) /\
+  accuracy_F (RndOps (rnd_up u64)) ex_labels ex_preds < acc_exact ex_labels ex_preds.
+Proof.
+  pose proof u64_range as [U0 U1].
+  split; [lra|]. split; [apply rnd_up_rel; lra|]. split; [now apply rnd_up_not_id|].
+  split; [exact ex_domain|]. split; [reflexivity|]. split; [discriminate|]. split.
+  - change (2 * n_class ex_labels * length ex_labels + n_class ex_labels + 3)%nat with 21%nat.
+    unfold u64. assert (P : 32 <= 2 ^ 53).
+    { change 53%nat with (5 + 48)%nat. rewrite pow_add. assert (1 <= 2 ^ 48) by (apply pow_R1_Rle; lra). lra. }
+    assert (P0 : 0 < 2 ^ 53) by lra.
+    apply (Rmult_lt_reg_r (2 ^ 53)); [exact P0|]. rewrite Rmult_assoc, Rinv_l by lra.
+    replace (INR 21) with 21 by (cbn [INR]; lra). lra.
+  - split; [exact ex_exact|]. split; [apply ex_up | apply ex_up_lt; lra].
+Qed.
